@@ -791,7 +791,7 @@ fn unicode_sweep(cx: &mut Ctx) {
 }
 
 fn float_sweep(cx: &mut Ctx, rng: &mut Rng, n: u64) {
-    let mut emit = |cx: &mut Ctx, s: &[u8]| {
+    let emit = |cx: &mut Ctx, s: &[u8]| {
         let r = String::from_utf8_lossy(s).parse::<f64>();
         let line = match r { Ok(x) => tf(x), Err(_) => "none".into() };
         cx.out.op(format!("F {}", hex(s)), line);
@@ -924,7 +924,7 @@ fn has_num(v: &LuaV) -> bool {
 }
 
 fn luaconv(cx: &mut Ctx, rng: &mut Rng, n: u64) {
-    let mut run = |cx: &mut Ctx, v: &LuaV, src: &str| {
+    let run = |cx: &mut Ctx, v: &LuaV, src: &str| {
         let script = format!("return {}", v.literal());
         let mut ex = CommandExecutor::new();
         let got = match eval(&mut ex, &script, &vec![]) { Ok(r) => r, Err(()) => RespValue::err("crash") };
